@@ -77,6 +77,29 @@ def withinType (key : Nat → α) (rc2 : Nat → Nat → α) (ty : Nat → Nat) 
 
 end Select
 
+/-! ### Spec: the lists as the property states them -/
+section SpecLists
+variable {α : Type} [LT α]
+
+/-- `L` is the N-nearest list of centre `i` among particles `0..n-1` with distance keys `key`:
+exactly `N` other particles, every listed one strictly closer than every other one left out,
+ordered by increasing distance, never the particle itself. -/
+structure Spec.IsNNearest (key : Nat → α) (n i N : Nat) (L : List Nat) : Prop where
+  length : L.length = N
+  nodup : L.Nodup
+  mem : ∀ j ∈ L, j < n ∧ j ≠ i
+  sorted : L.Pairwise (fun a b => key a < key b)
+  closest : ∀ j, j < n → j ≠ i → j ∉ L → ∀ m ∈ L, key m < key j
+
+/-- `L` is the cutoff list of centre `i`: exactly the other particles satisfying `within`,
+ordered by increasing distance. -/
+structure Spec.IsCutoffList (key : Nat → α) (within : Nat → Prop) (n i : Nat) (L : List Nat) : Prop where
+  mem : ∀ j, j ∈ L ↔ (j < n ∧ j ≠ i ∧ within j)
+  nodup : L.Nodup
+  sorted : L.Pairwise (fun a b => key a < key b)
+
+end SpecLists
+
 /-! ## the file: what the writers emit -/
 
 def header : Line := ["id", "cn", "neighborlist"]
